@@ -48,7 +48,9 @@ func init() {
 
 const watchdog = 120 * time.Second
 
-func key(tag string) ed25519.PrivKeyEd25519 { return ed25519.GenPrivKeyFromSecret([]byte("c42/" + tag)) }
+func key(tag string) ed25519.PrivKeyEd25519 {
+	return ed25519.GenPrivKeyFromSecret([]byte("c42/" + tag))
+}
 
 func pubOf(k ed25519.PrivKeyEd25519) ed25519.PubKeyEd25519 { return k.PubKey().(ed25519.PubKeyEd25519) }
 
@@ -721,7 +723,9 @@ func handshakeFaults(c *vf.Ctx) {
 		return ref.pub(), s
 	})
 	sem("sig-empty", func(ref *refPeer, r *rand.Rand) (ed25519.PubKeyEd25519, []byte) { return ref.pub(), nil })
-	sem("sig-63-bytes", func(ref *refPeer, r *rand.Rand) (ed25519.PubKeyEd25519, []byte) { return ref.pub(), ref.signChallenge()[:63] })
+	sem("sig-63-bytes", func(ref *refPeer, r *rand.Rand) (ed25519.PubKeyEd25519, []byte) {
+		return ref.pub(), ref.signChallenge()[:63]
+	})
 	sem("sig-65-bytes", func(ref *refPeer, r *rand.Rand) (ed25519.PubKeyEd25519, []byte) {
 		return ref.pub(), append(ref.signChallenge(), 0)
 	})
